@@ -1,5 +1,5 @@
 #!/usr/bin/env python3
-"""seed2.py <PID> [--props P1,P2] [--keep]
+"""seed2.py <PID> [--props P1,P2] [--round r3] [--keep]
 Round-2 seeded changes: for each of patchA.diff / patchB.diff delivered by a sub-agent in /tmp/wt/r2-<PID>:
   1. confirm in the scratch worktree: with the change the 44 unit tests pass and the demo fails; without it the demo passes;
   2. run the named quick checks against a scratch copy of /repo with the change applied (tools/lab.py; /repo untouched);
@@ -11,7 +11,10 @@ pid = args[0]
 props = [pid]
 if "--props" in args:
     props = args[args.index("--props") + 1].split(",")
-wt = "/tmp/wt/r2-%s" % pid
+rnd = "r2"
+if "--round" in args:
+    rnd = args[args.index("--round") + 1]
+wt = "/tmp/wt/%s-%s" % (rnd, pid)
 V = "/verif"
 
 
@@ -26,7 +29,7 @@ for X in ("A", "B"):
     if not os.path.exists(patch) or not os.path.exists(os.path.join(wt, "tests", demo + ".rs")):
         print(pid, X, "missing deliverables")
         continue
-    d = os.path.join(V, "seeded", "%s-r2%s" % (pid, X.lower()))
+    d = os.path.join(V, "seeded", "%s-%s%s" % (pid, rnd, X.lower()))
     os.makedirs(d, exist_ok=True)
     ran = []
     sh("git checkout -- src example.png", cwd=wt)
@@ -64,7 +67,7 @@ for X in ("A", "B"):
             results = {"error": str(e), "out": out[-2000:]}
         if "--keep" not in args:
             shutil.rmtree(lab, ignore_errors=True)
-    meta = {"breaks_property": pid, "source": "independent sub-agent (round 2) given only the property text and a scratch worktree",
+    meta = {"breaks_property": pid, "source": "independent sub-agent (round %s) given only the property text and a scratch worktree" % rnd[1:],
             "confirmed": confirmed, "what_i_ran": ran, "checks_on_mutated_copy": results,
             "needs": open(os.path.join(d, "NOTES.md")).read()[:4000] if os.path.exists(os.path.join(d, "NOTES.md")) else ""}
     json.dump(meta, open(os.path.join(d, "meta.json"), "w"), indent=1)
